@@ -65,23 +65,9 @@ nni_strdup(const char *src)
 	return (dst);
 }
 
-/* Port resolver.  Units that define UP_REAL_PORT compile the REAL
- * nni_get_port_by_name (src/platform/posix/posix_resolv_gai.c is then a source
- * of the TU; strtol is CBMC's library model, getservbyname the stub below).
- * Otherwise ASSUMED: fails, or stores some 16-bit port; the name is only
- * required to be a readable string. */
-#ifndef UP_REAL_PORT
-int
-nni_get_port_by_name(const char *name, uint32_t *portp)
-{
-	__CPROVER_assert(__CPROVER_r_ok(name, 1), "port name readable");
-	if (nondet_bool()) {
-		return (NNG_EADDRINVAL);
-	}
-	*portp = nondet_u16();
-	return (0);
-}
-#endif
+/* Port resolver: the REAL nni_get_port_by_name is part of the TU
+ * (src/platform/posix/posix_resolv_gai.c is a source of this module); strtol is
+ * CBMC's library model, getservbyname the stub in harness_bmc.c. */
 
 /* snprintf: CBMC has no body for it.  ASSUMED model of the C library function
  * for the conversions url.c uses (%s, %u, literal text): writes at most n-1
